@@ -263,7 +263,7 @@ fn faults(r: &mut Rng, env: &Env, actor: &Option<T>) -> Vec<(Env, Option<T>, &'s
 
 const TOKENS: &[&str] = &["type", "service", "func", "record", "variant", "opt", "vec", "blob", "principal", "import", "query", "oneway", "composite_query",
     "null", "nat", "int", "nat8", "text", "bool", "reserved", "empty", "float64", "true", "false",
-    "{", "}", "(", ")", ";", ",", ":", "=", "->", ".", "==", "!=", "!:", "+", "-", "A", "B", "x", "_", "\"s\"", "\"\\u{41}\"", "\"\\0\"", "\"\\zz\"", "\"",
+    "{", "}", "(", ")", ";", ",", ":", "=", "->", ".", "==", "!=", "!:", "+", "-", "A", "B", "x", "_", "\"s\"", "\"\\u{41}\"", "\"\\0\"", "\"\\zz\"", "\"", "\"\\\u{e9}\"", "\"\\\u{1F600}", "\"a\\\u{80}", "\"\\", "'\\\u{e9}'",
     "0", "1", "42", "4294967295", "4294967296", "0x1F", "0X1F", "0x", "00_", "1_000", "1__0", "1.5", "1e10", "1e", ".5", "5.", "0xFFFFFFFF", "0x100000000",
     "123456789012345678901234567890123456789012345678901234567890", "/*", "*/", "//", "\n", " ", "\u{e9}", "\u{1F600}", "\0", "principal \"aaaaa-aa\"", "principal \"zz\"", "blob \"\\ff\""];
 
